@@ -17,7 +17,9 @@
   empty exclusion list although the error value may name a peer (monitorSigning raises it without one).
   Partial / assumed: ambiguous trees (typed errors of two different kinds at once) are classified by source order of
   the switch (`classify_priority` shows the order; no claim that this is the intended cause). The bully election itself
-  (timing, message loss) is not modelled beyond `bullyElected`; see `bully_accepts_unlisted_claimant`.
+  (timing, message loss) is not modelled beyond `bullyElected`; `bully_accepts_unlisted_claimant` states the known
+  finding C11-bully-unlisted-claimant about the code as written, `listed_election_follows_no_culprit` the intended rule
+  (which the driver uses as the reference on exactly those inputs).
 -/
 import SygmaModel.Model.C11
 import SygmaModel.Props.C07
@@ -272,6 +274,22 @@ theorem undecodable_culprit_point : afterFailure true (Err.wrap (.tss [(1 : Nat)
 theorem bully_accepts_unlisted_claimant :
     bullyElected (fun n : Nat => n) 1 (nextCandidates [1, 2, 3] [3]) (some 3) = 3 ∧
     (3 : Nat) ∉ nextCandidates [1, 2, 3] [3] := by decide
+
+/-- with the intended election rule the relayer only ever follows itself or a candidate — never a culprit -/
+theorem listed_election_follows_no_culprit (key : α → Nat) (self : α) (holders ex : List α) (claimant : Option α)
+    (hself : self ∉ ex) :
+    bullyElectedListed key self (nextCandidates holders ex) claimant ∉ ex := by
+  cases claimant with
+  | none => exact hself
+  | some r =>
+    by_cases hr : r ∈ nextCandidates holders ex
+    · have hr' : r ∉ ex := by
+        simp only [nextCandidates, excludePeers, List.mem_filter, decide_eq_true_eq] at hr; exact hr.2
+      simp only [bullyElectedListed, hr, if_true, bullyElected]
+      split
+      · exact hr'
+      · exact hself
+    · simpa [bullyElectedListed, hr] using hself
 
 end Property
 end Sygma.C11
